@@ -470,3 +470,136 @@ Fixpoint g_session (h : list step) : list outcome :=
   | SCallNative :: h' => OOk :: g_session h'
   | _ :: h' => g_session h'
   end.
+
+(* ------------------------------------------------------------------ *)
+(** * The shape of the argument expression *)
+
+(** How a script value of a concrete script type is represented in a slot. *)
+Inductive arep :=
+| ARaw               (* the concrete value *)
+| ABox (k : nat)     (* k+1 nested valueInterface boxes *)
+| AWrap              (* the wrapper struct of a host interface (stdlib._fmt_Stringer) *)
+| AFail.             (* the script panics before the host is reached *)
+
+Inductive ptype := PConcrete | PIface | PAny | PHostIface.   (* static type of the parameter / slot *)
+Inductive ashape :=
+| ALit | ASlot         (* a literal; a variable, field, element or dereference of static type P *)
+| ACall | AHostCall    (* the result of a script call / method call through an interface; of a host call *)
+| AConv                (* a conversion P(literal) *)
+| ANested (n : nat).   (* Wrap(...Wrap(Make(n))...) with n+1 Wraps *)
+Inductive asink := KEcho | KEchoStr.   (* host parameter interface{} / ...interface{}; fmt.Stringer *)
+
+(** A value of concrete static type written to a slot of static type P (assign, composite literals). *)
+Definition a_store (p : ptype) (has_methods : bool) : arep :=
+  match p with
+  | PIface => ABox 0
+  | PAny => if has_methods then ABox 0 else ARaw
+  | PHostIface => AWrap
+  | PConcrete => ARaw
+  end.
+
+(** "return literal" in a function whose result type is P. *)
+Definition a_ret (p : ptype) : arep :=
+  match p with PIface => ABox 0 | PHostIface => AWrap | _ => ARaw end.
+
+(** call(): an argument for a parameter of static type P. [concrete]: the expression has the concrete
+    static type (else it has type P); [is_call]: the argument is directly a call — then a script
+    interface parameter is boxed AGAIN around the callee's already boxed result slot, and any other
+    parameter takes the slot as it is. *)
+Definition a_argconv (p : ptype) (has_methods : bool) (r : arep) (concrete is_call : bool) : arep :=
+  match r with
+  | AFail => AFail
+  | _ =>
+      if is_call then
+        match p, r with
+        | PIface, ABox k => ABox (S k)
+        | PIface, _ => ABox 0
+        | _, _ => r
+        end
+      else
+        match p with
+        | PIface => ABox 0                                              (* genValueInterface flattens *)
+        | PAny => if concrete && has_methods then ABox 0 else r
+        | PHostIface => if concrete then AWrap
+                        else match r with ARaw => AFail | _ => r end   (* genInterfaceWrapper leaves a valueT operand alone *)
+        | PConcrete => r
+        end
+  end.
+
+Fixpoint a_nest (p : ptype) (hm : bool) (n : nat) (r : arep) : arep :=
+  match n with O => a_argconv p hm r false true | S n' => a_argconv p hm (a_nest p hm n' r) false true end.
+
+(** The argument expression: representation, has it the concrete static type, is it a call. *)
+Definition a_expr (p : ptype) (hm : bool) (sh : ashape) : arep * bool * bool :=
+  match sh with
+  | ALit => (ARaw, true, false)
+  | ASlot => (a_store p hm, false, false)
+  | ACall => (a_ret p, false, true)
+  | AHostCall => (ARaw, false, true)
+  | AConv => match p with
+             | PIface => (ABox 0, false, false)
+             | PConcrete => (ARaw, true, false)
+             | _ => (ARaw, false, false)     (* a conversion to interface{} or to a host interface leaves the value as it is *)
+             end
+  | ANested n => (a_nest p hm n (a_ret p), false, true)
+  end.
+
+(** valueInterfaceValue: every box is opened. *)
+Fixpoint strip_all (k : nat) (inner : arep) : arep := match k with O => inner | S k' => strip_all k' inner end.
+Definition a_unbox (r : arep) : arep := match r with ABox k => strip_all (S k) ARaw | _ => r end.
+
+Fixpoint a_forward (p : ptype) (hm : bool) (depth : nat) (st : arep * bool * bool) : arep * bool * bool :=
+  match depth with
+  | O => st
+  | S d => let '(r, c, ic) := st in a_forward p hm d (a_argconv p hm r c ic, false, false)
+  end.
+
+(** What the host function receives (callBin's argument preparation for the sink). *)
+Definition y_echo (p : ptype) (hm : bool) (sh : ashape) (depth : nat) (k : asink) : arep :=
+  let '(r, concrete, is_call) := a_forward p hm depth (a_expr p hm sh) in
+  match r with
+  | AFail => AFail
+  | _ =>
+      let str := match k with KEchoStr => true | _ => false end in
+      let r' :=
+        if is_call then a_unbox r                     (* nested call: valueInterfaceValue, nothing is wrapped *)
+        else if concrete then (if str then AWrap else r)
+        else match p with
+             | PIface => a_unbox r                    (* genValueInterfaceValue *)
+             | PConcrete => if str then AWrap else r
+             | _ => r                                 (* interface{} operand: genValue, as it is; valueT operand: as it is *)
+             end in
+      if str then match r' with ARaw => AFail | _ => r' end   (* reflect: Call using struct {...} as type fmt.Stringer *)
+      else r'
+  end.
+
+(** The contract: the host receives the concrete value (through fmt.Stringer: its wrapper). *)
+Definition g_echo (k : asink) : arep := match k with KEchoStr => AWrap | KEcho => ARaw end.
+
+(* ------------------------------------------------------------------ *)
+(** * go and defer statements: when are the arguments read *)
+
+Inductive sform := FGo | FDefer.
+Inductive callee :=
+| CHostDirect | CHostVar          (* host.F(x); f := host.F; f(x): callBin *)
+| CHostVarTyped | CHostParam      (* var f func(T) = host.F; a host callback received as parameter: call(), native value *)
+| CHostField                      (* a struct field of func type holding a host callback *)
+| CScriptFunc | CScriptClosure
+| CHostMethod | CHostMethodValue | CScriptMethod | CScriptMethodValue.
+
+(** callBin hands the frame slots themselves to "go callFn(v, in)": reflect reads them when the
+    goroutine starts. call() copies the arguments of a go statement at the statement. Every defer
+    keeps the frame slots in f.deferred. *)
+Definition aliases_slots (c : callee) : bool :=
+  match c with
+  | CHostDirect | CHostVar | CHostField | CHostMethod | CHostMethodValue => true
+  | _ => false
+  end.
+
+(** [true] = the callee receives the value the variable holds when the call RUNS (after the
+    re-assignment), [false] = the value at the statement. *)
+Definition y_stmt_late (f : sform) (c : callee) : bool :=
+  match f with FDefer => true | FGo => aliases_slots c end.
+
+Definition y_stmt (f : sform) (c : callee) (at_stmt after : val) : val := if y_stmt_late f c then after else at_stmt.
+Definition g_stmt (at_stmt after : val) : val := at_stmt.
